@@ -43,7 +43,7 @@ type c11Prog struct {
 var faultKinds = []string{"absent", "error", "junk", "wrongshape", "stall", "slow", "absent", "error", "junk", "slow"}
 
 func genC11(t *rapid.T) c11Prog {
-	cfg := sim.GenConfig{MaxReplicas: 4, MaxOps: ev.Scale(28, 60), MinOps: 3, Codecs: []int{0}, AppendBias: 3, NoRebuild: true}
+	cfg := sim.GenConfig{MaxReplicas: 4, MaxOps: ev.Scale(28, 60), MinOps: 3, Codecs: []int{0}, AppendBias: 3, NoRebuild: true, LargeOneIn: ev.Scale(128, 96)}
 	w := sim.Gen(t, cfg)
 	// more skip references: alternative paths around faulty blocks
 	for i := range w.Ops {
